@@ -91,7 +91,7 @@ class PairCheck(Check):
 class C01(PairCheck):
     prop = 'C01'
     enforced = {'C01'}
-    devs = ('zero_length_stuck',)
+    devs = ('zero_length_stuck', 'ack_timing_keyed_by_length')
     term_p = 0.25
     close_p = 0.05
 
@@ -115,7 +115,7 @@ class C01(PairCheck):
 class C04(PairCheck):
     prop = 'C04'
     enforced = {'C04'}
-    devs = ('start_after_term',)
+    devs = ('start_after_term', 'floor_beats_mru')
     term_p = 0.6
 
     def executions(self, tier, seed):
